@@ -2,6 +2,7 @@ package rules
 
 import (
 	"go/ast"
+	"go/token"
 	"go/types"
 	"strings"
 
@@ -49,22 +50,81 @@ func getHostAPI(p *ir.Prog) *hostAPI {
 	h.contractSig = p.Method("consensus", "State", "ContractSigHash")
 	h.renewalSig = p.Method("consensus", "State", "RenewalSigHash")
 	h.hostKey = p.FieldOr("rhp", "Server", "hostKey", isNamedT("types", "PrivateKey"))
+	// lock wrappers: functions of the package that call LockV2Contract and hand on (state, unlock, error)
 	units := map[*types.Func]bool{}
-	var raw []*ir.Func
-	for _, f := range p.MethodsOf("rhp", "Server") {
-		if len(f.CallsTo(false, h.readRequest)) > 0 {
-			raw = append(raw, f)
-			units[f.Obj] = true
-			continue
-		}
-		if len(f.CallsTo(false, h.lockV2)) > 0 && f.Type.Results != nil && len(f.Type.Results.List) == 3 {
+	for _, f := range p.PkgFuncs("rhp") {
+		if len(f.CallsTo(false, h.lockV2)) > 0 && f.Type.Results != nil && f.Type.Results.NumFields() == 3 {
 			h.lockWrappers = append(h.lockWrappers, f)
 			units[f.Obj] = true
 		}
 	}
+	// the handlers: the Server methods the dispatcher (the method that reads the RPC id) refers to, by call,
+	// method value or method expression; failing that, every Server method that reads a request itself
+	var raw []*ir.Func
+	readID := p.FuncObj("rhp4", "ReadID")
+	seen := map[*types.Func]bool{}
+	for _, d := range p.PkgFuncs("rhp") {
+		if len(d.CallsTo(true, readID)) == 0 {
+			continue
+		}
+		refs := map[*types.Func]bool{}
+		ast.Inspect(d.Body, func(n ast.Node) bool {
+			if id, ok := n.(*ast.Ident); ok {
+				if fn, ok := d.Info().Uses[id].(*types.Func); ok {
+					refs[fn.Origin()] = true
+				}
+			}
+			return true
+		})
+		// a dispatch table declared at package level
+		for _, file := range d.Pkg.Syntax {
+			for _, decl := range file.Decls {
+				gd, ok := decl.(*ast.GenDecl)
+				if !ok || gd.Tok != token.VAR {
+					continue
+				}
+				mentioned := false
+				for _, sp := range gd.Specs {
+					for _, nm := range sp.(*ast.ValueSpec).Names {
+						if o := d.Info().Defs[nm]; o != nil && d.MentionsObj(d.Body, true, o) {
+							mentioned = true
+						}
+					}
+				}
+				if mentioned {
+					ast.Inspect(gd, func(n ast.Node) bool {
+						if id, ok := n.(*ast.Ident); ok {
+							if fn, ok := d.Info().Uses[id].(*types.Func); ok {
+								refs[fn.Origin()] = true
+							}
+						}
+						return true
+					})
+				}
+			}
+		}
+		for _, f := range p.MethodsOf("rhp", "Server") {
+			if refs[f.Obj] && f != d && !units[f.Obj] && !seen[f.Obj] {
+				seen[f.Obj] = true
+				raw = append(raw, f)
+			}
+		}
+	}
+	if len(raw) == 0 {
+		for _, f := range p.MethodsOf("rhp", "Server") {
+			if len(f.CallsTo(false, h.readRequest)) > 0 {
+				raw = append(raw, f)
+			}
+		}
+	}
+	for _, f := range raw {
+		units[f.Obj] = true
+	}
 	h.vs = p.Views("rhp", ir.ExpandOpt{Key: "host-handlers", Stop: func(fn *types.Func) bool { return units[fn] }})
 	for _, f := range raw {
-		h.handlers = append(h.handlers, h.vs.Of(f))
+		if v := h.vs.Of(f); len(v.CallsTo(false, h.readRequest)) > 0 {
+			h.handlers = append(h.handlers, v)
+		}
 	}
 	return h
 }
